@@ -245,4 +245,6 @@ def run(ck, tier):
     import_findings(ck, 'C03', 'R8', ('R2',), 'the reply that follows in the same TCP segment is cut or lost and its deferred never fires',
                     detail_prefixes=('getFrame-range', 'advance'), construct_contains=('socket_framer',))
     ck.assume('Deferred semantics (fires once) are Twisted\'s; behaviour with more than 65535 outstanding requests is not decided')
+    from .. import ownership as _own
+    ck.guard(_own.rule_instance_owned, ck, cx, 'R9', _own.MANAGERS[1:], 'pending deferreds of one connection are visible to (and consumed by) another connection with the same transaction ids', 2)
     return cx.idx
